@@ -26,43 +26,35 @@ Proof.
   all: try c02_fixed B L.
 Qed.
 
-(* ---------------- TCP ---------------- *)
-Lemma TCP_valid_len v : TCP_IsValid v = Ok true -> (20 <= len v)%nat.
-Proof. unfold TCP_IsValid, lenN. intros H. injection H as H. lia. Qed.
-
-Lemma shr4_le15 : forall b, b < 256 -> (N.shiftr b 4 <=? 15) = true.
+(* ---------------- TCP (repaired: HeaderLen in bytes, IsValid checks the data offset) ---------------- *)
+Lemma tcp_hl_spec : forall b, b < 256 -> N.shiftr b 4 * 4 = 4 * ((b / 16) mod 16).
 Proof. sweep. Qed.
 
-
-Lemma TCP_safe v : wf v -> bytes_ok (arr v) -> TCP_IsValid v = Ok true -> getters_ok TCP_findings_C01 TCP_getters v.
+Lemma TCP_valid_facts v : TCP_IsValid v = Ok true ->
+  (20 <= len v)%nat /\ 20 <= N.shiftr (nth 12 (arr v) 0) 4 * 4 <= N.of_nat (len v).
 Proof.
-  intros W B H. apply TCP_valid_len in H. unfold wf in W.
-  unfold getters_ok, TCP_getters. each_getter.
-  all: try c01_fixed.
-  (* Payload: p[p[12]>>4:] *)
-  intros _. unfold getter_ok, TCP_Payload, rfrom. slices.
-  pose proof (shr4_le15 _ (bytes_ok_nth (arr v) 12 B)).
-  slices. split; [apply safe_Ok | inside_tac].
+  unfold TCP_IsValid, andr, TCP_HeaderLen_n, lenN.
+  destruct (20 <=? N.of_nat (len v)) eqn:E; cbn [bind]; [|discriminate].
+  rewrite idx_ok by lia. cbn [bind].
+  destruct (20 <=? N.shiftr (nth 12 (arr v) 0) 4 * 4) eqn:E2; [|discriminate].
+  destruct (N.shiftr (nth 12 (arr v) 0) 4 * 4 <=? N.of_nat (len v)) eqn:E3; [|discriminate].
+  intros _. lia.
 Qed.
 
-Lemma TCP_spec v : wf v -> bytes_ok (arr v) -> TCP_IsValid v = Ok true -> getters_spec TCP_findings_C02 TCP_getters TCP_specs v.
+Ltac std_safe2 W := unfold wf in W; unfold getters_ok; each_getter; try c01_fixed; try c01_gen.
+Ltac std_spec2 W B L := unfold wf in W; pose proof (view_length _ W) as L; unfold getters_spec; each_spec;
+  try (c02_fixed B L; fail); try (c02_fixed B L; by_sweep); try (c02_gen B L; fail).
+
+Lemma TCP_safe v : wf v -> bytes_ok (arr v) -> TCP_IsValid v = Ok true -> getters_ok [] TCP_getters v.
 Proof.
-  intros W B H. apply TCP_valid_len in H. unfold wf in W. pose proof (view_length v W) as L.
-  unfold getters_spec, TCP_getters, TCP_specs.
-  each_spec.
-  all: try (c02_fixed B L; by_sweep).
-  - intros K. simp_known K. unfold bt in K.
-    unfold_getter; slices. unfold tcp_hlen. norm_bits. view_fields L. pow_lits. byte_bounds B. strip.
-    assert (K' : (nth 12 (arr v) 0 / 16 =? 0) = true) by lia. clear K.
-    revert K'. revert H0. generalize (nth 12 (arr v) 0). sweepc.
-  - intros K. simp_known K. unfold bt in K.
-    unfold_getter; slices. unfold tcp_hlen. norm_bits. view_fields L. pow_lits. byte_bounds B.
-    assert (K' : (nth 12 (arr v) 0 / 16 =? 0) = true) by lia. clear K.
-    assert (E : N.shiftr (nth 12 (arr v) 0) 4 = 4 * ((nth 12 (arr v) 0 / 16) mod 16)).
-    { revert K'. revert H0. generalize (nth 12 (arr v) 0). sweepc. }
-    rewrite <- E. assert (Z : N.shiftr (nth 12 (arr v) 0) 4 = 0).
-    { revert K'. revert H0. generalize (nth 12 (arr v) 0). sweepc. }
-    rewrite Z. slices. cbn [len]. strip; lia.
+  intros W B H. destruct (TCP_valid_facts v H) as [H20 HL]. unfold TCP_getters. std_safe2 W.
+Qed.
+
+Lemma TCP_spec v : wf v -> bytes_ok (arr v) -> TCP_IsValid v = Ok true -> getters_spec [] TCP_getters TCP_specs v.
+Proof.
+  intros W B H. destruct (TCP_valid_facts v H) as [H20 HL]. unfold TCP_getters, TCP_specs. std_spec2 W B L.
+  - (* Payload *) intros _. unfold_getter. slices. unfold tcp_hlen. norm_bits. view_fields L. pow_lits.
+    rewrite <- (tcp_hl_spec _ (bytes_ok_nth (arr v) 12 B)). cbn [len]. reflexivity.
 Qed.
 
 (* ---------------- ARP ---------------- *)
@@ -86,25 +78,34 @@ Proof.
   all: c02_fixed B L.
 Qed.
 
-(* ---------------- IP4 ---------------- *)
+(* ---------------- IP4 (repaired: IsValid checks IHL >= 20 and TotalLen >= IHL; Fragment uses |) ---------------- *)
 Lemma IP4_valid_facts v : wf v -> IP4_IsValid v = Ok true ->
-  (20 <= len v)%nat /\ N.shiftl (N.land (nth 0 (arr v) 0) 15) 2 <= lenN v /\
-  be16 (nth 2 (arr v) 0) (nth 3 (arr v) 0) <= lenN v.
+  (20 <= len v)%nat /\ 20 <= N.shiftl (N.land (nth 0 (arr v) 0) 15) 2 <= lenN v /\
+  N.shiftl (N.land (nth 0 (arr v) 0) 15) 2 <= be16 (nth 2 (arr v) 0) (nth 3 (arr v) 0) <= lenN v.
 Proof.
   intros W. unfold wf in W. unfold IP4_IsValid, andr, orr, IP4_IHL_n, IP4_TotalLen_n.
   destruct (20 <=? lenN v) eqn:E20; cbn [bind].
   - assert (L20 : (20 <= len v)%nat) by (unfold lenN in E20; lia).
-    rewrite idx_ok by lia. cbn [bind].
-    destruct (N.shiftl (N.land (nth 0 (arr v) 0) 15) 2 <=? lenN v) eqn:EI.
-    + rewrite be16_at_ok by lia. cbn [bind]. simpl Nat.add.
-      destruct (be16 (nth 2 (arr v) 0) (nth 3 (arr v) 0) <=? lenN v) eqn:ET.
-      * intros _. repeat split; try lia.
-      * assert (lenN v <? 20 = false) as -> by lia. cbn [bind].
-        assert (lenN v <? N.shiftl (N.land (nth 0 (arr v) 0) 15) 2 = false) as -> by lia.
-        discriminate.
-    + assert (lenN v <? 20 = false) as -> by lia. cbn [bind].
-      destruct (lenN v <? N.shiftl (N.land (nth 0 (arr v) 0) 15) 2); [discriminate|].
-      rewrite be16_at_ok by lia. discriminate.
+    repeat (rewrite idx_ok by lia; cbn [bind]). repeat (rewrite be16_at_ok by lia; cbn [bind]). simpl Nat.add.
+    set (ihl := N.shiftl (N.land (nth 0 (arr v) 0) 15) 2). set (tl := be16 (nth 2 (arr v) 0) (nth 3 (arr v) 0)).
+    destruct (20 <=? ihl) eqn:A1; cbn [bind].
+    + destruct (ihl <=? lenN v) eqn:A2; cbn [bind].
+      * repeat (rewrite idx_ok by lia; cbn [bind]). repeat (rewrite be16_at_ok by lia; cbn [bind]). simpl Nat.add.
+        fold ihl tl. destruct (ihl <=? tl) eqn:A3; cbn [bind].
+        -- repeat (rewrite be16_at_ok by lia; cbn [bind]). simpl Nat.add. fold tl.
+           destruct (tl <=? lenN v) eqn:A4; cbn [bind].
+           ++ intros _. repeat split; lia.
+           ++ assert (lenN v <? 20 = false) as -> by lia. cbn [bind]. repeat (rewrite idx_ok by lia; cbn [bind]). fold ihl.
+              assert (ihl <? 20 = false) as -> by lia. cbn [bind]. repeat (rewrite idx_ok by lia; cbn [bind]). fold ihl.
+              assert (lenN v <? ihl = false) as -> by lia. rewrite ?be16_at_ok by lia. cbn [bind]. discriminate.
+        -- assert (lenN v <? 20 = false) as -> by lia. cbn [bind]. repeat (rewrite idx_ok by lia; cbn [bind]). fold ihl.
+           assert (ihl <? 20 = false) as -> by lia. cbn [bind]. repeat (rewrite idx_ok by lia; cbn [bind]). fold ihl.
+           assert (lenN v <? ihl = false) as -> by lia. rewrite ?be16_at_ok by lia. cbn [bind]. discriminate.
+      * assert (lenN v <? 20 = false) as -> by lia. cbn [bind]. repeat (rewrite idx_ok by lia; cbn [bind]). fold ihl.
+        assert (ihl <? 20 = false) as -> by lia. cbn [bind]. repeat (rewrite idx_ok by lia; cbn [bind]). fold ihl.
+        assert (lenN v <? ihl = true) as -> by lia. discriminate.
+    + assert (lenN v <? 20 = false) as -> by lia. cbn [bind]. repeat (rewrite idx_ok by lia; cbn [bind]). fold ihl.
+      assert (ihl <? 20 = true) as -> by lia. discriminate.
   - assert (lenN v <? 20 = true) as -> by lia. discriminate.
 Qed.
 
@@ -112,43 +113,38 @@ Lemma ihl_model_spec : forall b, b < 256 -> N.shiftl (N.land b 15) 2 = 4 * ((b /
 Proof. sweep. Qed.
 Lemma ihl_mod : forall b, b < 256 -> N.shiftl (N.land b 15) 2 = 4 * (b mod 16).
 Proof. sweep. Qed.
-Lemma ihl_le60 : forall b, b < 256 -> (N.shiftl (N.land b 15) 2 <=? 60) = true.
+Lemma land31 : forall b, b < 256 -> N.land b 31 = b mod 32.
 Proof. sweep. Qed.
 
-Lemma IP4_safe v : wf v -> bytes_ok (arr v) -> IP4_IsValid v = Ok true -> getters_ok IP4_findings_C01 IP4_getters v.
+Lemma IP4_safe v : wf v -> bytes_ok (arr v) -> IP4_IsValid v = Ok true -> getters_ok [] IP4_getters v.
 Proof.
   intros W B H. destruct (IP4_valid_facts v W H) as (H20 & HI & HT). unfold wf in W. unfold lenN in *.
   unfold getters_ok, IP4_getters. each_getter.
   all: try c01_fixed.
-  (* Payload: p[IHL:TotalLen], outside the class TotalLen < IHL *)
-  intros K. simp_known K. unfold w16, bt in K. simpl Nat.add in K.
-  unfold getter_ok. unfold_getter. slices. unfold rsl.
-  pose proof (ihl_mod _ (bytes_ok_nth (arr v) 0 B)) as E. unfold be16 in *.
-  simpl Nat.add. rewrite E in *. rewrite sl_ok by lia. cbn [bind len]. split; [apply safe_Ok | inside_tac].
+  (* Payload: p[IHL:TotalLen] *)
+  intros _. unfold getter_ok. unfold_getter. slices. unfold rsl. simpl Nat.add. unfold be16 in *.
+  rewrite sl_ok by lia. cbn [bind len]. split; [apply safe_Ok | inside_tac].
 Qed.
 
 Lemma ip4_flags_ms : forall b, b < 256 -> N.land b 224 = 32 * ((b / 32) mod 8).
 Proof. sweep. Qed.
 
-Lemma IP4_spec v : wf v -> bytes_ok (arr v) -> IP4_IsValid v = Ok true -> getters_spec IP4_findings_C02 IP4_getters IP4_specs v.
+Lemma IP4_spec v : wf v -> bytes_ok (arr v) -> IP4_IsValid v = Ok true -> getters_spec [] IP4_getters IP4_specs v.
 Proof.
   intros W B H. destruct (IP4_valid_facts v W H) as (H20 & HI & HT). unfold wf in W. unfold lenN in *.
   pose proof (view_length v W) as L.
   unfold getters_spec, IP4_getters, IP4_specs.
   each_spec.
-  10: { (* Payload, outside TotalLen < IHL *)
-    intros K. simp_known K. unfold w16, bt in K. simpl Nat.add in K.
-    unfold_getter. slices. unfold rsl, ip4_ihl, ip4_totallen. norm_bits. view_fields L. pow_lits.
-    pose proof (ihl_mod _ (bytes_ok_nth (arr v) 0 B)) as E. unfold be16 in *. simpl Nat.add.
-    byte_bounds B. rewrite E in *. rewrite sl_ok by lia. cbn [bind len].
+  10: { (* Payload *)
+    intros _. unfold_getter. slices. unfold rsl, ip4_ihl, ip4_totallen. norm_bits. view_fields L. pow_lits.
+    pose proof (ihl_mod _ (bytes_ok_nth (arr v) 0 B)) as E. unfold be16 in *. simpl Nat.add in *.
+    byte_bounds B. rewrite sl_ok by lia. cbn [bind len]. rewrite E.
     repeat rewrite N.div_1_r.
     replace ((nth 2 (arr v) 0 * 256 + nth 3 (arr v) 0) mod 65536) with (nth 2 (arr v) 0 * 256 + nth 3 (arr v) 0) by lia.
     reflexivity. }
-  7: { (* Fragment, outside fragment offset <> 0 *)
-    intros K. simp_known K. unfold bt in K.
-    unfold_getter. slices. unfold sfield. norm_bits. view_fields L. pow_lits. byte_bounds B. strip.
-    assert (Z7 : nth 7 (arr v) 0 = 0) by lia. assert (Z6 : nth 6 (arr v) 0 mod 32 = 0) by lia.
-    simpl Nat.add. rewrite Z7. rewrite N.land_0_r. lia. }
+  7: { (* Fragment *)
+    intros _. unfold_getter. slices. unfold sfield. norm_bits. view_fields L. pow_lits. byte_bounds B. strip.
+    simpl Nat.add. rewrite (lor_shl8 _ _ H1). rewrite (land31 _ H0). lia. }
   1: { (* CalculateChecksum: C15 checksum_rfc1071 + commutation of the zero checksum word *)
     intros _. unfold_getter. slices. cbn [arr]. strip. unfold ip4_header_checksum.
     repeat rewrite sub_view by lia. unfold sub. rewrite skipn_O.
@@ -165,59 +161,24 @@ Proof.
   all: try (c02_fixed B L; by_sweep).
 Qed.
 
-(* ---------------- Ether ---------------- *)
+(* ---------------- Ether (SrcIP/DstIP repaired; Payload of a header-only frame still returns spare capacity) ---------------- *)
 Lemma Ether_valid_len v : Ether_IsValid v = Ok true -> (14 <= len v)%nat.
 Proof. unfold Ether_IsValid, lenN. intros H. injection H as H. lia. Qed.
 
-Lemma cap_skipn v n : List.length (skipn n (arr v)) = (cap v - n)%nat.
-Proof. unfold cap. apply skipn_length. Qed.
-
 Lemma Ether_safe v : wf v -> bytes_ok (arr v) -> Ether_IsValid v = Ok true -> getters_ok Ether_findings Ether_getters v.
 Proof.
-  intros W _ H. apply Ether_valid_len in H. unfold wf in W.
-  unfold getters_ok, Ether_getters. each_getter.
-  all: try c01_fixed.
-  - (* DstIP *)
-    intros K. simp_known K. unfold w16, bt in K. simpl Nat.add in K.
-    unfold getter_ok. unfold_getter. slices. simpl Nat.add. unfold be16.
-    set (et := nth 12 (arr v) 0 * 256 + nth 13 (arr v) 0) in *.
-    unfold Ether_Payload_s, Ether_Payload_l, Ether_HeaderLen_n, Ether_EtherType_n. slices. simpl Nat.add. unfold be16. fold et.
-    destruct (et =? 2048) eqn:E1; [|destruct (et =? 34525) eqn:E2].
-    + assert (et =? 33024 = false) as -> by lia. assert (et =? 34984 = false) as -> by lia.
-      assert (Nat.ltb 14 (len v) = true) as -> by (apply Nat.ltb_lt; lia). slices. cbn [lsl].
-      unfold IP4_Dst, rarr. rewrite sl_ok by (unfold cap; cbn [arr]; rewrite ?cap_skipn; lia). cbn [bind].
+  intros W _ H. apply Ether_valid_len in H. unfold Ether_getters. std_safe2 W.
+  (* Payload *)
+  intros K. simp_known K. unfold eth_hlen, w16, bt in K. simpl Nat.add in K.
+  unfold getter_ok. unfold Ether_Payload, Ether_Payload_l, Ether_HeaderLen_n, Ether_EtherType_n. slices. simpl Nat.add. unfold be16.
+  set (et := nth 12 (arr v) 0 * 256 + nth 13 (arr v) 0) in *.
+  set (n := if et =? 33024 then 18%nat else if et =? 34984 then 22%nat else 14%nat) in *.
+  destruct (Nat.ltb_spec n (len v)).
+  + slices. unfold lval. cbn [loff lsl len]. split; [apply safe_Ok | inside_tac].
+  + destruct (Nat.eqb_spec (len v) n).
+    * assert (cap v = len v) by lia. rewrite sl_ok by lia. cbn [bind]. unfold lval. cbn [loff lsl len].
       split; [apply safe_Ok | inside_tac].
-    + assert (et =? 33024 = false) as -> by lia. assert (et =? 34984 = false) as -> by lia.
-      assert (Nat.ltb 14 (len v) = true) as -> by (apply Nat.ltb_lt; lia). slices. cbn [lsl].
-      unfold IP6_Dst, rarr. rewrite sl_ok by (unfold cap; cbn [arr]; rewrite ?cap_skipn; lia). cbn [bind].
-      split; [apply safe_Ok | inside_tac].
-    + split; [apply safe_Ok | inside_tac].
-  - (* Payload *)
-    intros K. simp_known K. unfold eth_hlen, w16, bt in K. simpl Nat.add in K.
-    unfold getter_ok. unfold Ether_Payload, Ether_Payload_l, Ether_HeaderLen_n, Ether_EtherType_n. slices. simpl Nat.add. unfold be16.
-    set (et := nth 12 (arr v) 0 * 256 + nth 13 (arr v) 0) in *.
-    set (n := if et =? 33024 then 18%nat else if et =? 34984 then 22%nat else 14%nat) in *.
-    destruct (Nat.ltb_spec n (len v)).
-    + slices. unfold lval. cbn [loff lsl len]. split; [apply safe_Ok | inside_tac].
-    + destruct (Nat.eqb_spec (len v) n).
-      * assert (cap v = len v) by lia. rewrite sl_ok by lia. cbn [bind]. unfold lval. cbn [loff lsl len].
-        split; [apply safe_Ok | inside_tac].
-      * cbn [bind]. split; [apply safe_Ok | inside_tac].
-  - (* SrcIP *)
-    intros K. simp_known K. unfold w16, bt in K. simpl Nat.add in K.
-    unfold getter_ok. unfold_getter. slices. simpl Nat.add. unfold be16.
-    set (et := nth 12 (arr v) 0 * 256 + nth 13 (arr v) 0) in *.
-    unfold Ether_Payload_s, Ether_Payload_l, Ether_HeaderLen_n, Ether_EtherType_n. slices. simpl Nat.add. unfold be16. fold et.
-    destruct (et =? 2048) eqn:E1; [|destruct (et =? 34525) eqn:E2].
-    + assert (et =? 33024 = false) as -> by lia. assert (et =? 34984 = false) as -> by lia.
-      assert (Nat.ltb 14 (len v) = true) as -> by (apply Nat.ltb_lt; lia). slices. cbn [lsl].
-      unfold IP4_Src, rarr. rewrite sl_ok by (unfold cap; cbn [arr]; rewrite ?cap_skipn; lia). cbn [bind].
-      split; [apply safe_Ok | inside_tac].
-    + assert (et =? 33024 = false) as -> by lia. assert (et =? 34984 = false) as -> by lia.
-      assert (Nat.ltb 14 (len v) = true) as -> by (apply Nat.ltb_lt; lia). slices. cbn [lsl].
-      unfold IP6_Src, rarr. rewrite sl_ok by (unfold cap; cbn [arr]; rewrite ?cap_skipn; lia). cbn [bind].
-      split; [apply safe_Ok | inside_tac].
-    + split; [apply safe_Ok | inside_tac].
+    * cbn [bind]. split; [apply safe_Ok | inside_tac].
 Qed.
 
 Lemma Ether_spec v : wf v -> bytes_ok (arr v) -> Ether_IsValid v = Ok true -> getters_spec Ether_findings Ether_getters Ether_specs v.
@@ -225,24 +186,18 @@ Proof.
   intros W B H. apply Ether_valid_len in H. unfold wf in W. pose proof (view_length v W) as L.
   assert (ET : ether_type (view v) = nth 12 (arr v) 0 * 256 + nth 13 (arr v) 0).
   { unfold ether_type. norm_bits. view_fields L. pow_lits. byte_bounds B. simpl Nat.add. lia. }
-  unfold getters_spec, Ether_getters, Ether_specs.
-  each_spec.
+  unfold getters_spec, Ether_getters, Ether_specs. each_spec.
   all: try (c02_fixed B L; fail).
   - (* DstIP *)
-    intros K. simp_known K. unfold w16, bt in K. simpl Nat.add in K.
-    unfold ether_ip. rewrite ET.
-    unfold_getter. slices. simpl Nat.add. unfold be16.
+    intros _. unfold ether_ip. rewrite ET. unfold blen. rewrite L.
+    unfold_getter. slices. simpl Nat.add. unfold be16, lenN.
     set (et := nth 12 (arr v) 0 * 256 + nth 13 (arr v) 0) in *.
-    unfold Ether_Payload_s, Ether_Payload_l, Ether_HeaderLen_n, Ether_EtherType_n. slices. simpl Nat.add. unfold be16. fold et.
-    destruct (et =? 2048) eqn:E1; [|destruct (et =? 34525) eqn:E2].
-    + assert (et =? 33024 = false) as -> by lia. assert (et =? 34984 = false) as -> by lia.
-      assert (Nat.ltb 14 (len v) = true) as -> by (apply Nat.ltb_lt; lia). slices. cbn [lsl].
-      unfold IP4_Dst, rarr. rewrite sl_ok by (unfold cap; cbn [arr]; rewrite ?cap_skipn; lia). cbn [bind arr].
-      rewrite sub_view by lia. unfold sub. rewrite skipn_skipn'. reflexivity.
-    + assert (et =? 33024 = false) as -> by lia. assert (et =? 34984 = false) as -> by lia.
-      assert (Nat.ltb 14 (len v) = true) as -> by (apply Nat.ltb_lt; lia). slices. cbn [lsl].
-      unfold IP6_Dst, rarr. rewrite sl_ok by (unfold cap; cbn [arr]; rewrite ?cap_skipn; lia). cbn [bind arr].
-      rewrite sub_view by lia. unfold sub. rewrite skipn_skipn'. reflexivity.
+    destruct (et =? 2048) eqn:E1; [|destruct (et =? 34525) eqn:E2]; cbn [andb].
+    + destruct (34 <=? N.of_nat (len v)) eqn:G; destruct (Nat.leb_spec 34 (len v)); try lia;
+        [|assert ((et =? 34525) = false) as -> by lia; reflexivity].
+      slices. unfold IP4_Dst, rarr. slices. cbn [arr]. rewrite sub_view by lia. unfold sub. rewrite skipn_skipn'. reflexivity.
+    + destruct (54 <=? N.of_nat (len v)) eqn:G; destruct (Nat.leb_spec 54 (len v)); try lia; [|reflexivity].
+      slices. unfold IP6_Dst, rarr. slices. cbn [arr]. rewrite sub_view by lia. unfold sub. rewrite skipn_skipn'. reflexivity.
     + reflexivity.
   - (* HeaderLen *)
     intros _. cbn beta. unfold ether_hlen. rewrite ET. unfold_getter. slices. reflexivity.
@@ -259,20 +214,15 @@ Proof.
         destruct (Nat.ltb_spec (len v) n); [lia|]. repeat f_equal; lia.
       * cbn [bind]. destruct (Nat.ltb_spec (len v) n); [|lia]. reflexivity.
   - (* SrcIP *)
-    intros K. simp_known K. unfold w16, bt in K. simpl Nat.add in K.
-    unfold ether_ip. rewrite ET.
-    unfold_getter. slices. simpl Nat.add. unfold be16.
+    intros _. unfold ether_ip. rewrite ET. unfold blen. rewrite L.
+    unfold_getter. slices. simpl Nat.add. unfold be16, lenN.
     set (et := nth 12 (arr v) 0 * 256 + nth 13 (arr v) 0) in *.
-    unfold Ether_Payload_s, Ether_Payload_l, Ether_HeaderLen_n, Ether_EtherType_n. slices. simpl Nat.add. unfold be16. fold et.
-    destruct (et =? 2048) eqn:E1; [|destruct (et =? 34525) eqn:E2].
-    + assert (et =? 33024 = false) as -> by lia. assert (et =? 34984 = false) as -> by lia.
-      assert (Nat.ltb 14 (len v) = true) as -> by (apply Nat.ltb_lt; lia). slices. cbn [lsl].
-      unfold IP4_Src, rarr. rewrite sl_ok by (unfold cap; cbn [arr]; rewrite ?cap_skipn; lia). cbn [bind arr].
-      rewrite sub_view by lia. unfold sub. rewrite skipn_skipn'. reflexivity.
-    + assert (et =? 33024 = false) as -> by lia. assert (et =? 34984 = false) as -> by lia.
-      assert (Nat.ltb 14 (len v) = true) as -> by (apply Nat.ltb_lt; lia). slices. cbn [lsl].
-      unfold IP6_Src, rarr. rewrite sl_ok by (unfold cap; cbn [arr]; rewrite ?cap_skipn; lia). cbn [bind arr].
-      rewrite sub_view by lia. unfold sub. rewrite skipn_skipn'. reflexivity.
+    destruct (et =? 2048) eqn:E1; [|destruct (et =? 34525) eqn:E2]; cbn [andb].
+    + destruct (34 <=? N.of_nat (len v)) eqn:G; destruct (Nat.leb_spec 34 (len v)); try lia;
+        [|assert ((et =? 34525) = false) as -> by lia; reflexivity].
+      slices. unfold IP4_Src, rarr. slices. cbn [arr]. rewrite sub_view by lia. unfold sub. rewrite skipn_skipn'. reflexivity.
+    + destruct (54 <=? N.of_nat (len v)) eqn:G; destruct (Nat.leb_spec 54 (len v)); try lia; [|reflexivity].
+      slices. unfold IP6_Src, rarr. slices. cbn [arr]. rewrite sub_view by lia. unfold sub. rewrite skipn_skipn'. reflexivity.
     + reflexivity.
 Qed.
 
@@ -281,28 +231,8 @@ Qed.
 
 Ltac witness w := exists w; split; [|split; [|split]];
   [ vm_compute; lia | apply bytes_okb_spec; vm_compute; reflexivity | vm_compute; reflexivity | ].
-Ltac example := split; [|split; [|try split]];
-  [ vm_compute; lia | apply bytes_okb_spec; vm_compute; reflexivity | vm_compute; reflexivity .. ].
-
-(* 45 00 00 10 ... : TotalLen 16 < IHL 20, accepted by IsValid; Payload() panics *)
-Definition w_ip4_short : slice := of_bytes [69;0;0;16; 0;0;0;0; 64;17;0;0; 10;0;0;1; 10;0;0;2].
-Lemma IP4_payload_refuted :
-  exists v, wf v /\ bytes_ok (arr v) /\ IP4_IsValid v = Ok true /\ IP4_Payload v = Panic.
-Proof. witness w_ip4_short. vm_compute. reflexivity. Qed.
-
-(* fragment offset 0x1fff is returned as 0 *)
-Definition w_ip4_frag : slice := of_bytes [69;0;0;20; 0;0;31;255; 64;17;0;0; 10;0;0;1; 10;0;0;2].
-Lemma IP4_fragment_refuted :
-  exists v, wf v /\ bytes_ok (arr v) /\ IP4_IsValid v = Ok true /\
-            IP4_Fragment v = Ok (VN 0) /\ sfield 51 13 (view v) = VN 8191.
-Proof. witness w_ip4_frag. split; vm_compute; reflexivity. Qed.
-
-(* data offset 5: HeaderLen() = 5 and the payload starts at byte 5; RFC 793: 20 *)
-Definition w_tcp : slice := of_bytes [0;80;1;187; 0;0;0;1; 0;0;0;2; 80;16;1;0; 0;0;0;0; 104;105].
-Lemma TCP_headerlen_refuted :
-  exists v, wf v /\ bytes_ok (arr v) /\ TCP_IsValid v = Ok true /\
-            TCP_HeaderLen v = Ok (VN 5) /\ tcp_hlen (view v) = 20 /\ TCP_Payload v = Ok (VR 5 17).
-Proof. witness w_tcp. repeat split; vm_compute; reflexivity. Qed.
+Ltac example := repeat split;
+  first [ apply bytes_okb_spec; vm_compute; reflexivity | vm_compute; reflexivity | vm_compute; lia ].
 
 (* header-only frame with 2 bytes of spare capacity: Payload() = p[14:16], outside the view *)
 Definition w_ether_spare : slice := of_bytes_cap [1;2;3;4;5;6; 7;8;9;10;11;12; 136;204] [170;187].
@@ -319,21 +249,15 @@ Proof.
   repeat split; try (vm_compute; lia); try (vm_compute; reflexivity). vm_compute. discriminate.
 Qed.
 
-(* IPv4 EtherType, 4 bytes of payload: SrcIP() panics *)
-Definition w_ether_ip : slice := of_bytes [1;2;3;4;5;6; 7;8;9;10;11;12; 8;0; 69;0;0;20].
-Lemma Ether_srcip_refuted :
-  exists v, wf v /\ bytes_ok (arr v) /\ Ether_IsValid v = Ok true /\ Ether_SrcIP v = Panic /\ Ether_DstIP v = Panic.
-Proof. witness w_ether_ip. split; vm_compute; reflexivity. Qed.
-
-(* non-vacuity: valid views outside every known class exist for each type *)
-Definition ex_ip4 : slice := of_bytes_cap [69;0;0;24; 18;52;0;0; 64;17;0;0; 10;0;0;1; 10;0;0;2; 1;2;3;4] [9;9].
+(* non-vacuity: valid views (outside the remaining known class) exist for each type, with non-trivial content *)
+Definition ex_ip4 : slice := of_bytes_cap [70;0;0;28; 18;52;31;255; 64;17;0;0; 10;0;0;1; 10;0;0;2; 1;1;1;1; 1;2;3;4] [9;9].
 Example IP4_valid_ex : wf ex_ip4 /\ bytes_ok (arr ex_ip4) /\ IP4_IsValid ex_ip4 = Ok true /\
-  forallb (fun ng => negb (known_of IP4_findings_C02 (fst ng) ex_ip4)) IP4_getters = true.
+  IP4_Fragment ex_ip4 = Ok (VN 8191) /\ IP4_Payload ex_ip4 = Ok (VR 24 4).
 Proof. example. Qed.
 
-Definition ex_tcp : slice := of_bytes [0;80;1;187; 0;0;0;1; 0;0;0;2; 0;16;1;0; 0;0;0;0; 104;105].
+Definition ex_tcp : slice := of_bytes [0;80;1;187; 0;0;0;1; 0;0;0;2; 96;16;1;0; 0;0;0;0; 1;1;1;1; 104;105].
 Example TCP_valid_ex : wf ex_tcp /\ bytes_ok (arr ex_tcp) /\ TCP_IsValid ex_tcp = Ok true /\
-  forallb (fun ng => negb (known_of TCP_findings_C02 (fst ng) ex_tcp)) TCP_getters = true.
+  TCP_HeaderLen ex_tcp = Ok (VN 24) /\ TCP_Payload ex_tcp = Ok (VR 24 2).
 Proof. example. Qed.
 
 Definition ex_udp : slice := of_bytes_cap [0;53;192;0; 0;10;0;0; 1;2] [7].
@@ -347,5 +271,6 @@ Proof. example. Qed.
 Definition ex_ether : slice :=
   of_bytes_cap ([1;2;3;4;5;6; 7;8;9;10;11;12; 8;0] ++ [69;0;0;20; 0;0;0;0; 64;17;0;0; 10;0;0;1; 10;0;0;2]) [9;9;9].
 Example Ether_valid_ex : wf ex_ether /\ bytes_ok (arr ex_ether) /\ Ether_IsValid ex_ether = Ok true /\
-  forallb (fun ng => negb (known_of Ether_findings (fst ng) ex_ether)) Ether_getters = true.
+  forallb (fun ng => negb (known_of Ether_findings (fst ng) ex_ether)) Ether_getters = true /\
+  Ether_SrcIP ex_ether = Ok (VX [10;0;0;1]).
 Proof. example. Qed.
